@@ -399,6 +399,29 @@ def _check(ctx, tmp):
     odd_file = os.path.join(odd_dir, "Table-2024.CSV")
     _sh.copy(wfile, odd_file)
     whomes.append(("mixed-case-path", mkhome(root, "w-mixed", config="Currency-Path-Is-Not-A-Key = 1\ncurrency-path = %s\n" % odd_file), "eur"))
+    # a per-dollar table need not carry the dollar itself: the same rows without the usd row are still THE table
+    nousd = [r for r in wt if r[0] != "usd"]
+    nousd_text = "".join("%s,%s,%r\n" % tuple(r) for r in nousd)
+    nousd_home = mkhome(root, "w-nousd", currency=nousd_text.encode())
+    nexprs, nmeta = [], []
+    ncodes = [s_ for s_, n_, r_ in nousd]
+    for _ in range(ctx.n(20, 100)):
+        a, b = rng.sample(ncodes, 2)
+        txt, x = rng.choice(AMOUNTS[:12])
+        nexprs.append("%s %s to %s" % (txt, a, b)); nmeta.append((x, a, b))
+    nout = run_batch(nousd_home, nexprs, tmp, "w-nousd")
+    if "crash" in nout:
+        ctx.violation("written-table-crash", "no-usd-row", "starts", nout["crash"], "the exported table without its usd row as ~/.config/ka/currency")
+    else:
+        if [tuple(r) for r in nout["table"]] != [tuple(r) for r in nousd]:
+            ctx.violation("written-table-not-used", "no-usd-row: " + nousd_text[:200], "CURRENCY_DATA == the file's %d rows" % len(nousd),
+                          "%d rows, first %r" % (len(nout["table"]), nout["table"][:1]), "a per-dollar table without a usd row as ~/.config/ka/currency; fresh process")
+        for e, (x, a, b), (st, v, err) in zip(nexprs, nmeta, nout["results"]):
+            ctx.count("no-usd:%s" % e, bucket="written-table:no-usd-row")
+            want_v = x * Fraction(wrates[b]) / Fraction(wrates[a])
+            if st != 0 or not close(v, want_v):
+                ctx.violation("written-table-rates", "no-usd-row: %s" % e, "%r (from the file's own rates)" % float(want_v), "status=%r value=%r %s" % (st, v, err),
+                              "a per-dollar table without a usd row; fresh process")
     # ... and through directories whose names contain a space followed by '#', '=', ';', ',' and non-ASCII letters
     for j, parts in enumerate([("exchange rates", "2026 #3"), ("a=b", "c;d,e"), ("tàux de chänge", "x #"), ("#first", " lead")]):
         d_ = os.path.join(root, *parts)
